@@ -970,7 +970,8 @@ fn probes(repo: &Path, fn_bounds: Option<&str>, rep: &mut Report) {
         rep.violation(
             "the closure returned by TypedFunc::into_func can no longer be moved to another thread (it stopped being Send: it no longer owns the handle, whose Send/Sync impls made it so)",
             "into-func-closure-not-send",
-            json!({"kind": "probe", "program": "into_func_send", "diagnostics": inf.diagnostics.chars().take(1500).collect::<String>()}),
+            json!({"kind": "probe", "program": "into_func_send",
+                "diagnostics": inf.diagnostics[inf.diagnostics.find("error").unwrap_or(0)..].chars().take(1500).collect::<String>()}),
         );
     } else if final_count(&inf.output) != Some(INTO_FUNC_SUM) {
         rep.violation(
